@@ -61,7 +61,11 @@ def case(ctx, case):
     if case.get("train_mode"):
         pol.train()
     torch.manual_seed(seed)
-    td_in = env.generator(batch_size=[B])
+    if case.get("inst_n"):  # instances of another size than the env (and the policy's env) was constructed for
+        td_in = policies.env_for(name, case["inst_n"], **case.get("extra", {}))[0].generator(batch_size=[B])
+        ctx.count("c11_other_size_cases")
+    else:
+        td_in = env.generator(batch_size=[B])
     td0 = env.reset(td_in.clone())
     dk = dict(case["decode"])
     decode_type = dk.pop("decode_type")
